@@ -17,6 +17,7 @@ import (
 	"fmt"
 	"io"
 	"os"
+	"reflect"
 	"runtime"
 	"sort"
 	"strings"
@@ -129,6 +130,42 @@ type chanErr chan int
 
 func (c chanErr) Error() string { return "chan-err" }
 
+// errors of NON-COMPARABLE dynamic types (map, slice, func): `==` between two interface values holding the same such
+// type panics at run time; nil-ness tests and errors.Is against a comparable target do not
+type mapErr map[string]int
+
+func (m mapErr) Error() string { return "map-err" }
+
+type sliceErr []int
+
+func (s sliceErr) Error() string { return "slice-err" }
+
+type funcErr func() string
+
+func (f funcErr) Error() string { return "func-err" }
+
+// sameErr: identity of two error values without ever evaluating == on a non-comparable type
+func sameErr(a, b error) bool {
+	if a == nil || b == nil {
+		return a == nil && b == nil
+	}
+	ta, tb := reflect.TypeOf(a), reflect.TypeOf(b)
+	if ta != tb {
+		return false
+	}
+	if ta.Comparable() {
+		return a == b
+	}
+	va, vb := reflect.ValueOf(a), reflect.ValueOf(b)
+	switch va.Kind() {
+	case reflect.Map, reflect.Func:
+		return va.Pointer() == vb.Pointer()
+	case reflect.Slice:
+		return va.Pointer() == vb.Pointer() && va.Len() == vb.Len()
+	}
+	return false
+}
+
 // cancel / panic / Finish-result codes >= 1000: error values that go-zero or the standard library treat
 // specially, bare and wrapped, errors of other concrete types (retErr is an atomic.Value), typed nils.
 // Every value is comparable; results are recognised by identity (==), never through Error().
@@ -151,6 +188,10 @@ var sentinels = map[int]error{
 	1016: structErr{},
 	1017: errors.New(""),
 	1018: &ptrErr{1018},
+	1019: mapErr{"k": 1},
+	1020: mapErr(nil),
+	1021: sliceErr{1, 2},
+	1022: funcErr(func() string { return "f" }),
 }
 
 func cancelErrOf(k int) error {
@@ -185,7 +226,7 @@ func codeOf(err error) (int, bool) {
 	}
 	sort.Ints(ks)
 	for _, k := range ks {
-		if err == sentinels[k] {
+		if sameErr(err, sentinels[k]) {
 			return k, true
 		}
 	}
@@ -406,7 +447,7 @@ func (r *runner) classify(val int, err error, hasVal bool) []any {
 	// interface value (a typed nil is a non-nil error and is not the nil interface)
 	if err != nil {
 		for _, k := range r.usedCodes("cancel") {
-			if err == sentinels[k] {
+			if sameErr(err, sentinels[k]) {
 				return []any{"cancel", k}
 			}
 		}
@@ -426,7 +467,7 @@ func (r *runner) classifyPanic(p any) []any {
 				return []any{"panic", k}
 			}
 		default:
-			if e, ok := p.(error); ok && e == sentinels[k] {
+			if e, ok := p.(error); ok && sameErr(e, sentinels[k]) {
 				return []any{"panic", k}
 			}
 		}
@@ -607,20 +648,46 @@ func runAtomic(c Case) Out {
 			vs := op[1].([]any)
 			var wg sync.WaitGroup
 			var panicked atomic.Int32
+			var running atomic.Int32
 			start := make(chan struct{})
+			running.Store(int32(len(vs)))
 			for _, v := range vs {
 				v := v
 				wg.Add(1)
 				go func() {
 					defer wg.Done()
+					defer running.Add(-1)
 					<-start
 					if set(v) != 0 {
 						panicked.Store(1)
 					}
 				}()
 			}
+			// a reader interleaved with the Sets: the distinct consecutive values it saw (at most 8)
+			mids := []any{}
+			wg.Add(1)
+			go func() {
+				defer wg.Done()
+				<-start
+				first := true
+				var last any
+				for i := 0; i < 64 && len(mids) < 8; i++ {
+					done := running.Load() == 0
+					v := load()
+					if first || v != last {
+						mids = append(mids, v)
+						first, last = false, v
+					}
+					if done {
+						break
+					}
+					runtime.Gosched()
+				}
+			}()
 			close(start)
 			wg.Wait()
+			out.AObs = append(out.AObs, []any{int(panicked.Load()), load(), mids})
+			continue
 			out.AObs = append(out.AObs, []any{int(panicked.Load()), load()})
 		}
 	}
